@@ -199,7 +199,7 @@ def gen_object_case(rng, idx):
     viewer = gen_viewer(rng, allow_point=(rng.random() < 0.3), density=density)
     c, R = camera(viewer)
     h, v, d = viewer["va"][0], viewer["va"][1], viewer["d"]
-    mode = rng.choice(["inside", "inside", "rear", "hidden", "hidden", "hidden", "behind", "far", "edge", "edge", "edge", "straddle", "vertical", "vertical"])
+    mode = rng.choice(["inside", "inside", "rear", "rear", "hidden", "hidden", "hidden", "behind", "behind", "far", "edge", "edge", "edge", "straddle", "straddle", "vertical", "vertical", "rearedge", "rearedge"])
     if mode in ("edge", "vertical") and rng.random() < 0.7:
         # narrow cone, camera offset and full 3D rotation: errors in composing offset and orientation show at the cone boundary
         viewer.update(cls="Object", cam=[rng.uniform(-3, 3) for _ in range(3)], dims=[1.0, 1.0, 1.0],
@@ -207,11 +207,19 @@ def gen_object_case(rng, idx):
                       va=[math.radians(rng.uniform(15, 70)), math.radians(rng.uniform(15, 70))], hk="narrow", vk="narrow")
         c, R = camera(viewer)
         h, v, d = viewer["va"][0], viewer["va"][1], viewer["d"]
+    if mode == "rearedge":
+        # a wide view (200-340 deg) whose blind zone behind the viewer is partly covered by the target: the target crosses the
+        # rear axis only, and reaches one or both edges of the view from behind (the two behind-only windows)
+        viewer.update(va=[math.radians(rng.uniform(200, 340)), viewer["va"][1] if viewer["cls"] != "Point" else math.radians(120)], hk="wide")
+        if viewer["cls"] == "Point":
+            viewer.update(cls="OrientedPoint", vk="medium")
+        c, R = camera(viewer)
+        h, v, d = viewer["va"][0], viewer["va"][1], viewer["d"]
     if rng.random() < 0.45:
         r_min = rng.uniform(0.6, 1.5)
         r_max = r_min + rng.uniform(0.6, 1.5)
         hh = rng.uniform(0.8, 2.5)
-        tgt = dict(shape="annulus", r_min=r_min, r_max=r_max, ann_h=hh, ball_local=[(r_min + r_max) / 2, 0.0, 0.0],
+        tgt = dict(shape="annulus", sections=rng.choice([8, 12, 16]), r_min=r_min, r_max=r_max, ann_h=hh, ball_local=[(r_min + r_max) / 2, 0.0, 0.0],
                    yaw=rng.uniform(-math.pi, math.pi), pitch=rng.uniform(-1.5, 1.5), roll=rng.uniform(-3, 3))
         size = r_max
     else:
@@ -243,6 +251,12 @@ def gen_object_case(rng, idx):
         az = rng.uniform(-h / 2, h / 2) * 0.5
         alt = rng.choice([-1, 1]) * min(1.5, (v / 2) * rng.uniform(0.8, 1.6))
         dist = rng.uniform(max(3 * size, 0.2 * d), max(3.2 * size, 0.8 * d))
+    elif mode == "rearedge":
+        blind = math.pi - h / 2
+        ar = min(1.2, blind * rng.uniform(0.6, 1.8))
+        dist = max(1.3 * size, 1.5 * size / math.sin(ar))
+        az = math.pi + rng.uniform(-0.6, 0.6) * ar
+        alt = rng.uniform(-v / 2, v / 2) * 0.3
     else:  # straddle: very close, spans a wide angle, possibly ahead and behind
         az, alt = rng.uniform(-math.pi, math.pi), rng.uniform(-0.5, 0.5)
         dist = size * rng.uniform(1.05, 1.8)
@@ -310,7 +324,9 @@ def gen_object_case(rng, idx):
             occ.pop()
         else:
             break
-    return dict(id=f"ob{idx}", viewer=viewer, target=tgt, occ=occ, mode=mode, place=dict(az=az, alt=alt, dist=dist))
+    # the exact-rational model costs ~1.5 ms per mesh edge: every box/cone/cylinder/annulus, one spheroid (1920 edges) in six
+    grid = tgt["shape"] != "spheroid" or idx % 6 == 0
+    return dict(id=f"ob{idx}", viewer=viewer, target=tgt, occ=occ, mode=mode, place=dict(az=az, alt=alt, dist=dist), grid=grid)
 
 
 def gen_2d_case(rng, idx):
@@ -604,11 +620,10 @@ def parse_obj(line):
     if p[0] == "EXN":
         return None
     f = float.fromhex
-    o = dict(tag=p[0], ahead=p[1] == "1", behind=p[2] == "1", nextra=int(p[3]), hmin=f(p[4]), hmax=f(p[5]), vmin=f(p[6]), vmax=f(p[7]),
-             smin=f(p[8]), smax=f(p[9]), miny=f(p[10]), minx=f(p[11]), windows=[], rows=[], nrays=0)
+    o = dict(tag=p[0], ahead=p[1] == "1", behind=p[2] == "1", nextra=int(p[3]), windows=[], rows=[], nrays=0)
     if o["tag"] == "NONE":
         return o
-    k = 12
+    k = 4
     nw = int(p[k]); k += 1
     for _ in range(nw):
         o["windows"].append([f(x) for x in p[k:k + 4]]); k += 4
@@ -620,9 +635,25 @@ def parse_obj(line):
     return o
 
 
-def grid_margin(m, r, rc):
+def run_driver_par(exe, cmds):
+    """the OBJ commands are CPU-heavy (exact rationals): spread them over WORKERS driver processes"""
+    if not cmds:
+        return []
+    k = max(1, min(WORKERS, len(cmds)))
+    out = [None] * len(cmds)
+    with cf.ThreadPoolExecutor(k) as ex:
+        for j, res in enumerate(ex.map(lambda j: common.run_driver(exe, cmds[j::k]), range(k))):
+            out[j::k] = res
+    return out
+
+
+def grid_margin(m, r, rc, diagline):
     """smallest distance of any discrete decision of the window/grid computation from its threshold (float vs exact)"""
     h, v = r["va"]
+    dg = diagline.split()
+    if dg[0] == "EXN":
+        return 0.0
+    m = dict(m, **dict(zip(["hmin", "hmax", "vmin", "vmax", "smin", "smax", "miny", "minx"], [float.fromhex(x) for x in dg])))
     ms = [m["miny"], m["minx"], abs(m["vmin"] - v / 2), abs(m["vmax"] + v / 2)]
     if m["behind"] and not m["ahead"]:
         ms += [abs(h / 2 + abs(m["smax"]) - math.pi), abs(h / 2 + abs(m["smin"]) - math.pi)]
@@ -679,7 +710,9 @@ def main():
     exe = common.build_ocaml(PID)
     quick = c.tier == "quick"
     rng = c.rng
-    n_pt, n_ob, n_pl, n_2d = (1000, 160, 40, 400) if quick else (40000, 4000, 300, 8000)
+    n_pt, n_ob, n_pl, n_2d = (1000, 160, 40, 400) if quick else (30000, 3000, 300, 6000)
+    sc = float(os.environ.get("VERIF_C17_SCALE", "1"))       # development knob only
+    n_pt, n_ob, n_pl, n_2d = [max(1, int(x * sc)) for x in (n_pt, n_ob, n_pl, n_2d)]
 
     pts = [gen_point_case(rng, i) for i in range(n_pt)]
     # the recorded witness of F14 and friends first
@@ -703,8 +736,13 @@ def main():
     # ---------------------------------------------------------------- (a) points: exact correspondence
     t0 = time.time()
     phase = c.cov.setdefault("phase_s", {})
-    pres = run_chunks("points", pts) if pts else {}
-    phase["points_impl"] = round(time.time() - t0, 1)
+    # ONE round of implementation processes for all four kinds of cases (importing Scenic dominates small batches);
+    # the heavy-tailed object cases first, so that round-robin chunks are balanced
+    mixed = ([dict(x, k="objects") for x in obs] + [dict(x, k="plumbing") for x in pls] +
+             [dict(x, k="points") for x in pts] + [dict(x, k="twod") for x in tds])
+    allres = run_chunks("mixed", mixed, timeout=20000) if mixed else {}
+    pres = allres
+    phase["impl_all"] = round(time.time() - t0, 1)
     cmds, idx = [], []
     for case in pts:
         r = pres.get(case["id"])
@@ -716,7 +754,7 @@ def main():
             continue
         idx.append((case, r))
         cmds += [pv_cmd("fixed", r, "new"), pv_cmd("old", r, "old")]
-    out = common.run_driver(exe, cmds) if cmds else []
+    out = run_driver_par(exe, cmds)
     skipped_boundary = 0
     for k, (case, r) in enumerate(idx):
         fx, old = parse_pv(out[2 * k]), parse_pv(out[2 * k + 1])
@@ -767,7 +805,7 @@ def main():
     t0 = time.time()
 
     # ---------------------------------------------------------------- (b) objects
-    ores = run_chunks("objects", obs, timeout=6000) if obs else {}
+    ores = allres
     for case in obs:
         r = ores.get(case["id"])
         if r is None or "crash" in r:
@@ -801,7 +839,7 @@ def main():
         cmd, rc = obj_cmd(case, r)
         gidx.append((case, r, rc))
         gcmds.append(cmd)
-    gout = common.run_driver(exe, gcmds) if gcmds else []
+    gout = run_driver_par(exe, gcmds)
     for (case, r, rc), line in zip(gidx, gout):
         g, m = r["grid"], parse_obj(line)
         if m is None:
@@ -823,7 +861,7 @@ def main():
             c.cov["traces_validated_against_impl"] += 1
             c.cov["grid_rays_compared"] = c.cov.get("grid_rays_compared", 0) + m["nrays"]
             continue
-        mg = grid_margin(m, r, rc)
+        mg = grid_margin(m, r, rc, common.run_driver(exe, ["OBJDIAG" + obj_cmd(case, r)[0][3:]])[0])
         if mg < 1e-6:
             c.hist("grid:skip-borderline")
             continue
@@ -835,7 +873,7 @@ def main():
     phase["grid"] = round(time.time() - t0, 1)
     t0 = time.time()
     # ---------------------------------------------------------------- (f) 2D fast path
-    tres = run_chunks("twod", tds) if tds else {}
+    tres = allres
     tidx, tcmds = [], []
     for case in tds:
         r = tres.get(case["id"])
@@ -892,7 +930,7 @@ def main():
     phase["twod"] = round(time.time() - t0, 1)
     t0 = time.time()
     # ---------------------------------------------------------------- (d) plumbing
-    plres = run_chunks("plumbing", pls) if pls else {}
+    plres = allres
     # one driver process for all scenarios (process start-up dominates otherwise)
     pl_cmds, pl_slices = [], {}
     for case in pls:
